@@ -710,7 +710,7 @@ def run_case(ctx, cirq, cfg, circuit, kind, deep, ignore, checks, case_no):
     if ignore and getattr(cfg, 'probe', None) is not None and cfg.probe.saw_ignored:
         ctx.violation(f'{cfg.name}:callback-saw-ignored-op', f'{cfg.id}: the user callback was called with an operation carrying an ignored tag; {desc}', dict(kind='ignored-callback', **rep))
     if cfg.perm:
-        a, b = list(circuit.all_operations()), list(out.all_operations())
+        a, b = flatten_ops(cirq, circuit), flatten_ops(cirq, out)
         if multiset_missing(a, b) or multiset_missing(b, a):
             ctx.violation(f'{cfg.name}:not-a-permutation', f'{cfg.id}: the output operations are not a permutation of the input operations; {desc}\noutput:\n{out}', dict(kind='permutation', output=repr(out), **rep))
     # semantic comparison through the reference semantics
@@ -812,24 +812,64 @@ def signature_features(rep):
     return rep.get('root_cause', '')
 
 
-def key_order(cirq, ops):
-    """per measurement key: the sequence of measured (original) qubit tuples, in execution order"""
-    seq = {}
+def key_order(cirq, ops_in, ops_out):
+    """True iff some key's measurement instances appear in a different order in the output.  Output instances are
+    identified with input instances by equality; ancilla measurements of defer_measurements (`_MeasurementQid`) by
+    their index among the instances of the key that are not present any more."""
+    def meas(ops):
+        d = {}
+        for op in ops:
+            if isinstance(op.gate, cirq.MeasurementGate):
+                d.setdefault(str(op.gate.key), []).append(op)
+        return d
+    mi, mo = meas(ops_in), meas(ops_out)
+    for k, ins in mi.items():
+        if len(ins) < 2:
+            continue
+        outs = mo.get(k, [])
+        plain = [o for o in outs if not any(hasattr(q, '_qid') for q in o.qubits)]
+        labels, used = [], set()
+        deferred = [j for j, i_op in enumerate(ins) if not any(i_op == p for p in plain)]
+        for o in outs:
+            if any(hasattr(q, '_qid') for q in o.qubits):
+                idx = o.qubits[0]._index
+                labels.append(deferred[idx] if idx < len(deferred) else -1)
+            else:
+                j = next((j for j, i_op in enumerate(ins) if j not in used and i_op == o), -1)
+                used.add(j)
+                labels.append(j)
+        if labels != sorted(labels):
+            return True
+    return False
+
+
+def decompose_defect(cirq, ops):
+    """An operation of the input whose own decomposition disagrees with its own unitary (a defect of that gate, C04)."""
+    seen = set()
     for op in ops:
-        if isinstance(op.gate, cirq.MeasurementGate):
-            qs = tuple(getattr(q, '_qid', q) for q in op.qubits)
-            seq.setdefault(str(op.gate.key), []).append(qs)
-    return seq
+        if op.gate is None or type(op.gate).__name__ in seen or not cirq.has_unitary(op) or not (1 <= len(op.qubits) <= 3):
+            continue
+        qs = sorted(op.qubits)
+        try:
+            dec = cirq.decompose(op)
+            if len(dec) == 1 and dec[0] == op:
+                continue
+            u, v = cirq.Circuit(dec).unitary(qubit_order=qs, qubits_that_should_be_present=qs), cirq.Circuit(op).unitary(qubit_order=qs)
+            if not cirq.equal_up_to_global_phase(u, v, atol=1e-6):
+                return type(op.gate).__name__
+        except Exception:
+            continue
+    return None
 
 
 def root_cause(cirq, cfg, circuit, out, deep):
     """Features of a failing case, computed on the real input/output, that name a recorded defect class (part of the signature)."""
     f = []
     ops_in, ops_out = flatten_ops(cirq, circuit), flatten_ops(cirq, out)
-    ki, ko = key_order(cirq, ops_in), key_order(cirq, ops_out)
-    if any(len(v) > 1 for v in ki.values()) and any(ki.get(k) != ko.get(k) for k in ki):
+    if key_order(cirq, ops_in, ops_out):
         f.append('per-key-measurement-order-changed')
-    if not deep and any(isinstance(op.untagged, cirq.CircuitOperation) and cirq.is_measurement(op) for op in circuit.all_operations()):
+    if not deep and cfg.name == 'drop_diagonal_before_measurement' and \
+            any(isinstance(op.untagged, cirq.CircuitOperation) and cirq.is_measurement(op) for op in circuit.all_operations()):
         f.append('measurement-inside-subcircuit')
     for m in circuit:
         if any(isinstance(op.gate, cirq.CZPowGate) for op in m) and any(op.gate is None for op in m):
@@ -837,6 +877,10 @@ def root_cause(cirq, cfg, circuit, out, deep):
             if gone:
                 f.append('gateless-op-in-cphase-moment-dropped')
                 break
+    if cfg.name in ('expand_composite', 'optimize_for_target_gateset', 'map_operations', 'map_operations_and_unroll'):
+        g = decompose_defect(cirq, ops_in)
+        if g:
+            f.append(f'decompose-disagrees-with-unitary:{g}')
     return '+'.join(f)
 
 
